@@ -103,6 +103,8 @@ def lean_load(ctx: Ctx, text: str, deps: dict | None = None):
     r = ctx.lean().call(req)
     if not r.get("ok"):
         return None, r.get("err")
+    if r.get("topo_ref_agrees") is False:
+        ctx.broke("correspondence", "staticOrder (edge-list formulation) vs staticOrderRef (graphlib mirror)", text)
     return RefModel(r), None
 
 
